@@ -157,14 +157,15 @@ fn callsign_pairs(run: &Run, tier: Tier) {
     use rayon::prelude::*;
     let carriers: Vec<(u64, u64)> = vec![(17, 4), (18, 1), (20, 0x20), (21, 0x20)];
     let jobs: Vec<(usize, u16, u16, u64)> = (0..carriers.len())
-        .flat_map(|c| (0..8u16).flat_map(move |i| ((i + 1)..8u16).flat_map(move |j| [1u64, 32].into_iter().map(move |fill| (c, i, j, fill)))))
+        .flat_map(|c| (0..8u16).flat_map(move |i| ((i + 1)..8u16).flat_map(move |j| [1u64, 32, 63, 0].into_iter().map(move |fill| (c, i, j, fill)))))
         .collect();
     let locs: Vec<Local> = jobs
         .par_iter()
         .map(|(c, i, j, fill)| {
             let mut loc = Local::default();
             let (df, sel) = carriers[*c];
-            if !tier.thorough() && *fill == 32 && (df == 18 || df == 20) {
+            // fillers: 'A', space, and the unassigned codes 63 / 0 (all eight characters unassigned is one of the cases)
+            if !tier.thorough() && *fill != 1 && (df == 18 || df == 20) {
                 return loc;
             }
             let mut b = vec![0u8; 14];
